@@ -3,8 +3,9 @@
 
 legs: MC   TLC checks mechanism (conversions; transfer; summarize | truncate; conversions | transfer, then the filter) =>
            the declarative period-report clauses for all small ledgers, all 8 clause subsets, CLOSE bare / dated, dates
-           before / inside / after / equal to entry dates.  Non-vacuity: CLEAR before CLOSE, CLOSE before OPEN, filter before
-           the clauses, and the compile step as shipped (OPEN + bare CLOSE crashes) must each be rejected by TLC.
+           before / inside / after / equal to entry dates.  Non-vacuity: CLEAR before CLOSE, CLEAR before and after CLOSE,
+           CLOSE before OPEN, filter before the clauses, and the compile step as shipped (OPEN + bare CLOSE crashes) must
+           each be rejected by TLC.
       S2C  TLC emits (ledger, clauses, filter) with what the statement determines of the returned rows (original postings
            kept, totals of the non-Equity positions, value at cost of all rows, every transaction balanced); the driver
            builds the ledger with beancount.core.data, runs SELECT / BALANCES / JOURNAL through the API and PRINT through
@@ -444,6 +445,12 @@ def judge_s2c(ctx, case, keys, via, obs, leg='S2C'):
             ctx.violation('equity:%s:%s:%s' % (via, ck, c['filter']['n']), 'value at cost of all rows (difference carried by Equity)',
                           info, leg, fmt(val), fmt(values(rows)))
             ok = False
+    phases = [{'S': 1, 'C': 3, 'T': 4}.get(r['flag'], 2) for r in rows]
+    if phases != sorted(phases):
+        ctx.violation('layout:%s:%s:%s' % (via, ck, c['filter']['n']),
+                      'fixed order OPEN, CLOSE, CLEAR: opening balances (S), the period, conversions (C), transfers (T)',
+                      info, leg, 'S* original* C* T*', ''.join(r['flag'] for r in rows))
+        ok = False
     if with_price:
         ub = unbalanced(rows)
         if ub:
@@ -831,7 +838,6 @@ def c2s(ctx):
 
 
 # ---- the check ------------------------------------------------------------------------------------------------------------
-INVS = ('KeepInv', 'BalanceSheetInv', 'IncomeInv', 'EquityInv', 'TxBalanceInv', 'FilterInv', 'CompileInv', 'SortedInv', 'ExpectInv')
 STEPS = ('Statement', 'Compile', 'OpenConversions', 'OpenTransfer', 'OpenSummarize', 'CloseTruncate', 'CloseConversions',
          'ClearTransfer', 'ApplyFilter')
 
@@ -846,6 +852,8 @@ def run(ctx):
         'position totals are per (account, currency, lot); values at cost and weights are exact decimals scaled by 10^6',
         '"the difference being carried by Equity accounts" is read as: valued at cost, the Equity rows offset all other rows '
         'exactly when CLOSE is present, and up to the unconverted remainder of the transactions of the period otherwise',
+        '"the clauses apply in the fixed order OPEN, CLOSE, CLEAR" is observed as the layout of the rows: opening balances (S), '
+        'the transactions of the period, the conversions entry of CLOSE (C), the transfers of CLEAR (T)',
         'the filter expression refers to transaction-level attributes (date, flag, narration)',
         'TLC 1.8, Json/IOUtils/SequencesExt community modules, beancount 3.x summarize as installed',
     ]
@@ -865,7 +873,8 @@ def run(ctx):
         if r.violated:
             ctx.violation('spec:' + ','.join(r.violated), 'TLC violates the period-report clauses on the mechanism',
                           {'behaviour': r.behaviour[:4000]}, 'MC')
-        for cfg, inv in (('MC_Summarize_clearfirst.cfg', 'IncomeInv'), ('MC_Summarize_closefirst.cfg', None),
+        for cfg, inv in (('MC_Summarize_clearfirst.cfg', 'IncomeInv'), ('MC_Summarize_clearalso.cfg', 'LayoutInv'),
+                         ('MC_Summarize_closefirst.cfg', None),
                          ('MC_Summarize_filterfirst.cfg', None), ('MC_Summarize_shipped.cfg', 'CompileInv')):
             r = ctx.tlc('MC_Summarize', cfg, leg='MC-nonvacuity', workers=4)
             if not r.violated or (inv and inv not in r.violated):
